@@ -83,12 +83,12 @@ class Check:
         raise NotImplementedError
 
     def replay(self, case, choices):
-        """Re-run one execution without the explorer; return list of Violation."""
-        st = Stats()
-        return [v for v in self.run_case_single(case, choices, st)]
-
-    def run_case_single(self, case, choices, stats):
-        raise NotImplementedError
+        """Re-run one execution without the explorer; return list of Violation.
+        Default: a violation's ``case`` is itself a single-execution case of run_case."""
+        c = dict(case)
+        if choices:
+            c["choices"] = list(choices)
+        return list(self.run_case(c, Stats()) or [])
 
     def bounds(self):
         return {}
@@ -110,7 +110,17 @@ def _worker(idx_case):
     except HarnessError as e:
         vs, err = [], "HarnessError in case %r: %s\n%s" % (case, e, traceback.format_exc())
     except BaseException as e:  # noqa
-        vs, err = [], "harness crash in case %r: %r\n%s" % (case, e, traceback.format_exc())
+        site = repo_frame(e)
+        if site is not None:
+            # an exception raised by the code under test travelled through the harness: on the
+            # unchanged tree this never happens, so it is a behaviour change, reported as such
+            vs = [Violation(_CHECK.id, "%s:exception-escaped-from-code-under-test:%s@%s"
+                            % (_CHECK.id, type(e).__name__, site), case, None,
+                            {"exception": repr(e)[:300], "traceback_tail": traceback.format_exc()[-1500:]},
+                            "no exception (the unchanged tree raises none here)", "exception-escaped")]
+            err = None
+        else:
+            vs, err = [], "harness crash in case %r: %r\n%s" % (case, e, traceback.format_exc())
     # keep the results small: a few shortest violations per key, the rest only counted
     by_key = {}
     for v in vs:
@@ -125,6 +135,16 @@ def _worker(idx_case):
             d["same_key_in_case"] = len(lst)
             out.append(d)
     return idx, st, out, err, time.time() - t0
+
+
+def repo_frame(exc):
+    """file:function of the innermost frame of exc that lies in the tree under test, or None"""
+    best = None
+    tb = exc.__traceback__
+    for fs in traceback.extract_tb(tb):
+        if fs.filename.startswith(env.MIDDLEWARE):
+            best = "%s:%s" % (fs.filename[len(env.MIDDLEWARE) + 1:], fs.name)
+    return best
 
 
 def load_known():
@@ -146,6 +166,15 @@ def run_check(check, jobs=None, budget_s=None, quiet=False):
         sys.stdout.write("HARNESS-ERROR property=%s in prepare(): %s\n" % (check.id, e))
         sys.stdout.flush()
         return 2
+    except Exception as e:   # noqa
+        site = repo_frame(e)
+        if site is None:
+            raise
+        check.pre_violations = list(getattr(check, "pre_violations", [])) + [Violation(
+            check.id, "%s:exception-escaped-from-code-under-test:%s@%s" % (check.id, type(e).__name__, site),
+            {"kind": "prepare"}, None, {"exception": repr(e)[:300], "traceback_tail": traceback.format_exc()[-1500:]},
+            "no exception (the unchanged tree raises none here)", "exception-escaped")]
+        check.cases = lambda: []
     cases = list(check.cases())
     _CHECK = check
     jobs = jobs or int(os.environ.get("VERIF_JOBS", "0")) or min(16, os.cpu_count() or 1)
